@@ -225,6 +225,22 @@ def suppression_family(ctx: Ctx, spec: dict[str, Any]) -> None:
             for e in elses:
                 inners.append(M.If([(M.Truthy(M.Lit(cond)), b)], e))
                 inners.append(M.Case(M.Lit(1), [([M.Lit(1 if cond else 2)], b)], e))
+    # alternatives: an `if` / `unless` whose first block is blank and whose text sits in an elsif (or the
+    # reverse), a `case` with several whens (seed c18-10A: `unless` forgot its elsif blocks when deciding
+    # whether it is blank, so an enclosing blank block swallowed the elsif's text)
+    for unless in (False, True):
+        for first_taken in (True, False):
+            c1 = M.Truthy(M.Lit(first_taken != unless))
+            for bi, b in enumerate(B):
+                for b2i, b2 in enumerate(B):
+                    for e in (None, B[(bi + b2i) % len(B)], B[(bi + 2 * b2i + 1) % len(B)]):
+                        inners.append(M.If([(c1, b), (M.Truthy(M.Lit(True)), b2)], e, unless=unless))
+                for e in (None, B[bi]):
+                    inners.append(M.If([(c1, b), (M.Truthy(M.Lit(False)), B[(bi + 1) % len(B)]),
+                                        (M.Truthy(M.Lit(True)), B[(bi + 3) % len(B)])], e, unless=unless))
+    for bi, b in enumerate(B):
+        for b2 in B:
+            inners.append(M.Case(M.Lit(2), [([M.Lit(1)], b), ([M.Lit(2)], b2)], B[(bi + 1) % len(B)]))
     def outers(inner: Any) -> list[list[Any]]:
         return [
             [inner],
